@@ -123,8 +123,13 @@ SET_COOKIES = ['s=1', 's=1; Path=/', 's=1; Domain=a.example', 's=1; Domain=.a.ex
 OTHERS = ['b.example', 'nota.example', 'a.example.evil.example', 'evil-a.example', 'example', 'xa.example', 'a.example.', 'A.EXAMPLE']
 
 
+SHAPES = ['http://{h}/next', 'http://mallory:x@{h}/@a.example/next', 'http://u@{h}/p?back=@a.example/login', 'http://u:p%40a.example@{h}/next', 'http://{h}/@a.example/next', 'http://a.example@{h}/next',
+          'http://{h}:8080/next', 'http://{h}/next#@a.example/']
+
+
 def cookies_pass(bad, stats):
     for sc in SET_COOKIES:
+      for shape in SHAPES:
         for other in OTHERS:
             for code in (301, 302, 303, 307, 308, None):
                 jar = http.cookiejar.CookieJar(); jar.set_policy(DeFactoCookiePolicy(cookie_jar=jar))
@@ -132,18 +137,18 @@ def cookies_pass(bad, stats):
                 o = Request('http://a.example/login'); o.prepare_for_send()
                 if code is None:
                     ws = session(o, wrap); ws._process_response(resp(o, 200, [('Set-Cookie', sc)]))
-                    o2 = Request('http://%s/next' % other); o2.prepare_for_send()
+                    o2 = Request(shape.format(h=other)); o2.prepare_for_send()
                     ws2 = session(o2, wrap)
                     n = o2
                 else:
                     ws = session(o, wrap)
-                    ws._process_response(resp(o, code, [('Set-Cookie', sc), ('Location', 'http://%s/next' % other)]))
+                    ws._process_response(resp(o, code, [('Set-Cookie', sc), ('Location', shape.format(h=other))]))
                     n = ws.next_request()
                 stats['cookie-scenarios'] += 1
                 if n is None: continue
                 same = other.lower().rstrip('.') == 'a.example'
                 ck = n.fields.get('Cookie')
-                if ck and not same: bad.append(('cookie-to-another-host', 'Set-Cookie %r from a.example, then %s http://%s/next carries Cookie: %r' % (sc, code or 'new fetch of', other, ck)))
+                if ck and not same: bad.append(('cookie-to-another-host', 'Set-Cookie %r from a.example, then %s %s carries Cookie: %r' % (sc, code or 'new fetch of', shape.format(h=other), ck)))
                 v = check_wire(n.to_bytes(), n.url_info, 'cookie scenario %r -> %s' % (sc, other))
                 if v: bad.append(v)
     # positive control: the cookie does come back to its own host (otherwise the scenarios above prove nothing)
